@@ -407,6 +407,9 @@ var dropKeys = [][]byte{[]byte("a"), []byte("ab"), []byte("abc"), []byte("a\xffz
 
 func (c *Ctx) dropPrefixes(h *hist, keys [][]byte) [][]byte {
 	n := 1 + c.Rng.Intn(3)
+	if c.Rng.Intn(20) == 0 {
+		n = 0 // DropPrefix() without prefixes: a no-op
+	}
 	var ps [][]byte
 	for i := 0; i < n; i++ {
 		k := keys[c.Rng.Intn(len(keys))]
